@@ -149,9 +149,16 @@ def cli_case(ctx, rng, idx, from_file, fixed=None):
         tree, search, repl = fixed
     else:
         swords, rwords = gen.pick_terms(rng)
+        if idx % 4 == 1:
+            # the replacement is the search term's words run together (FooBar -> Foobar): the Pascal/camel names are
+            # renamed by letter case only, which takes apply through its case-sensitivity probe
+            swords = swords[:2]
+            rwords = ["".join(swords)]
         tree = gen.gen_tree(rng, swords, depth=4, max_entries=14)
         search, repl = gen.render(rng.choice(["snake", "camel", "kebab", "pascal"]), swords), \
             gen.render(rng.choice(["snake", "camel", "kebab"]), rwords)
+        if idx % 4 == 1:
+            ctx.count("cli:case_only_terms")
     with common.scratch() as d:
         common.materialize(d, tree)
         before = common.snapshot(d)
@@ -194,7 +201,8 @@ def cli_case(ctx, rng, idx, from_file, fixed=None):
 def run(ctx):
     ctx.cov["rule"] = ("edits: random multi-byte contents with consistent edit lists plus a malformed stream; "
                        "applytree: generated trees (depth<=4, term in any subset of components, modes, symlinks) with "
-                       "by-construction plans plus stale/occupied perturbations; cli: plan->apply (direct and from saved file) "
+                       "by-construction plans plus stale/occupied perturbations, one in five with a replacement that is the term's words run "
+                       "together so that camel/Pascal names are renamed by letter case only; cli: plan->apply (direct and from saved file) "
                        "with whole-tree snapshot vs reference interpreter. non-trivial = at least one edit or rename; "
                        "distinct = distinct request line / (tree, terms)")
     ctx.assumptions += ["POSIX rename/chmod semantics of the local filesystem as modelled in RModel.Model.Fs",
@@ -234,8 +242,13 @@ def run(ctx):
     reqs, meta = [], []
     for i in range(n_tree):
         swords, rwords = gen.pick_terms(rng)
+        if i % 5 == 1:
+            swords = swords[:2]
+            rwords = ["".join(swords)]      # camel / Pascal names change by letter case only
         tree = gen.gen_tree(rng, swords, depth=4, max_entries=12, p_term_name=0.6)
         hunks, rens = build_plan_for_tree(rng, tree, swords, rwords)
+        if any(a.lower() == b.lower() and a != b for _, a, b in rens):
+            ctx.count("tree:has_case_only_rename")
         kind = "wellformed"
         if i % 4 == 3:
             kind, tree, hunks, rens = perturb_plan(rng, tree, hunks, rens)
